@@ -20,7 +20,7 @@ Inductive sevent :=
 | EvClosing                                      (* this side has begun to close the connection *)
 | EvClosed                                       (* the connection has ended (peer close, or the local close completed) *)
 | EvCtrl (stype system status : Z)               (* inbound control message *)
-| EvData (system : Z) (wellformed : bool)        (* inbound data message *)
+| EvData (system : Z) (w : bool) (wellformed : bool)   (* inbound data message; w: it asks for a reply itself (W-bit) *)
 | EvOpen (stype system : Z)                      (* this side sent a request of type stype and waits for its response *)
 | EvGiveUp (system : Z).                         (* this side stopped waiting (reply timeout) *)
 
@@ -85,12 +85,17 @@ Definition e37_step (s : sess) (e : sevent) : option (sess * list sout) :=
         if any_waiting s system then Some ({| st := cur; waiting := drop s system; closing := closing s |}, [OutResolve system]) else Some (s, [])
       else None
     end
-  | EvData system wellformed =>
+  | EvData system w wellformed =>
     match st s with
     | NotConnected => None
     | NotSelected => Some (s, [OutReject system REASON_NOT_SELECTED])
-    | Selected => if wellformed
-                  then Some ({| st := Selected; waiting := drop s system; closing := closing s |}, [if any_waiting s system then OutResolve system else OutDeliver system])
-                  else None
+    | Selected =>
+      (* a message that asks for a reply is a primary of the peer: it is delivered even if its system bytes (chosen by the peer)
+         equal those of an open transaction of ours; only a message without W-bit can be the reply to that transaction *)
+      if wellformed
+      then if any_waiting s system && negb w
+           then Some ({| st := Selected; waiting := drop s system; closing := closing s |}, [OutResolve system])
+           else Some (s, [OutDeliver system])
+      else None
     end
   end.
